@@ -295,6 +295,9 @@ func workload(r *mon.Run, idx int, f func(*call)) error {
 	case idx%8 == 7:
 		topo = simtopo.Chain(rng, 2+rng.IntN(62)) // 2…63
 		family = "chain"
+	case r.Thorough() && idx%16 == 9:
+		// larger topologies (thorough tier only)
+		topo = simtopo.Generate(rng, simtopo.Params{ISDs: 3, MaxASes: 20, MinASes: 16, PeerLinks: 5, CorePeering: true})
 	case idx%8 == 3:
 		// small single-ISD topologies rich in shortcuts and peering
 		topo = simtopo.Generate(rng, simtopo.Params{ISDs: 1, MaxCoresPerISD: 2, MaxASes: 6 + rng.IntN(5), MinASes: 6,
